@@ -123,3 +123,39 @@ contract(F + 'FileCache._store_single_color_tile', props=['C05', 'C06'],
                       'relpath': {'returns': 'str', 'pure': True}, 'dirname': {'returns': 'str', 'pure': True}},
          opaque=['_store', '_single_color_tile_location', 'dirname'],
          raises={'OSError': True}, trace=[_link_replaces_existing])
+
+
+# ---- legend cache and seed progress file: the file is only ever replaced through write_atomic ------------------------------
+def _only_write_atomic(target_of):
+    def clause(ex, st, post, result):
+        import z3
+        from pyvc.values import eq
+        wa = T.evs(st, 'write_atomic')
+        direct = T.evs(st, 'open', 'write', 'unlink', 'remove', 'rename')
+        goal = z3.BoolVal(len(wa) <= 1 and not direct)
+        for i, e in wa:
+            goal = z3.And(goal, eq(e.args[0], target_of(ex, st, post, e)))
+        yield ('replaced_only_through_write_atomic', goal,
+               'the file is written only by one write_atomic(<its own location>, <complete payload>) call: a reader sees the old '
+               'or the new complete file (write_atomic contract), never a partial one; nothing is opened, unlinked or renamed directly')
+    return clause
+
+
+cls('mapproxy.cache.legend:LegendCache', fields=dict(cache_dir='str', file_ext='str', directory_permissions='opaque',
+                                                     file_permissions='opaque'))
+contract('mapproxy.cache.legend:LegendCache.store', props=['C06'],
+         types=dict(legend='opaque'), returns='none', default_callee='opaque',
+         opaque_fields={'location': 'opt[str]', 'stored': 'opaque'},
+         opaque_spec={'legend_hash': {'returns': 'str', 'pure': True}, 'ensure_directory': {'pure': True}, 'as_buffer': {'pure': True},
+                      'ImageOptions': {'pure': True}, 'seek': {'pure': True}, 'read': {'pure': True}, 'exists': {'returns': 'bool', 'pure': True},
+                      'write_atomic': {'raises': ['OSError'], 'pure': True}, 'chmod': {'pure': True}},
+         opaque=['write_atomic', 'legend_hash', 'ensure_directory'],
+         raises={'OSError': True, 'ValueError': True},
+         trace=[_only_write_atomic(lambda ex, st, post, e: ex.opaque_field_at(st, e, post.env['legend'], 'location').val)])
+
+cls('mapproxy.seed.util:ProgressStore', fields=dict(filename='str', status='opaque'))
+contract('mapproxy.seed.util:ProgressStore.write', props=['C06'],
+         types={}, returns='none', default_callee='opaque',
+         opaque_spec={'dumps': {'pure': True}, 'write_atomic': {'raises': ['OSError', 'IOError'], 'pure': True}},
+         opaque=['write_atomic'],
+         trace=[_only_write_atomic(lambda ex, st, post, e: st.heap[post.env['self'].ref]['filename'])])
